@@ -138,4 +138,29 @@ def run(chk: common.Check) -> None:
                     m.append(f"reset(run_no_start_from=100) and run() {d} steps apart: the run executes as number {r['run_no']}, the number on display is {r['run_no_displayed']}")
             if m:
                 oracle_fail.append(({'overlap': r}, m, None))
+    # real spawn children, two runs of one object, the second after reset(run_no_start_from=10): every record of the second run —
+    # run info, trace info, prompt info, captured stdout — carries the number published for it
+    script = 'import threading\ndef w():\n    print("in thread")\nt = threading.Thread(target=w)\nt.start()\nt.join()\nprint("in main")\n'
+    rs = [{'statement': script, 'trace_threads': True, 'policy': {'kind': 'all', 'command': 'next'}, 'timeout': 40, 'second_run': True,
+           'second_reset': {'run_no_start_from': 10}, 'second_timeout': 30},
+          {'statement': script, 'trace_threads': True, 'policy': {'kind': 'all', 'command': 'next'}, 'timeout': 40, 'second_run': True, 'second_timeout': 30}]
+    for r in common.real_runs(rs, jobs=2, hard_timeout=120):
+        sp, rec = r['spec'], r['rec']
+        want = 10 if sp.get('second_reset') else 2
+        chk.cov.case(('real-two-runs', want))
+        chk.cov.count('kinds', 'real-child-two-runs')
+        m = []
+        if rec is None or rec.get('second_finished') is not True:
+            m.append(f'two runs of one object did not finish: {(rec or {}).get("errors")}')
+        else:
+            sr = rec['second_records']
+            if sr['run_no'] != [want]:
+                m.append(f'run numbers published for the second run: {sr["run_no"]}, expected [{want}]')
+            nums = {'run_info': sorted({x['run_no'] for x in sr['run_info']}), 'trace_info': sorted({x['run_no'] for x in sr['trace_info']}),
+                    'prompt_info': sorted({x['run_no'] for x in sr['prompt_info']}), 'stdout': sorted({x[2] for x in sr['stdout']})}
+            for k, v in nums.items():
+                if v != [want]:
+                    m.append(f'the {k} records of the run published as number {want} carry run numbers {v}')
+        if m:
+            oracle_fail.append(({'real_run': sp}, m, None))
     _life.finish(chk, 'C14', oracle_fail, dis, 'run numbers, run records, statement, child arguments')
